@@ -229,3 +229,36 @@ Fixpoint sorted_by_mainline (authmap : list event) (resolved_power : option even
    several (outside every property's domain) is not covered *)
 Definition at_most_one_power_auth (authmap : list event) (l : list event) : bool :=
   forallb (fun e => Nat.leb (length (filter is_power (lookup_ids authmap (e_auth e)))) 1) l.
+
+(* ====================================================================================
+   Iterative auth checks: what the auth rules are shown for one event.
+   "Each event is checked against the partial state; where the partial state has no event for
+   a key the event needs, the event's own auth events of that key are used, unless rejected."
+   ==================================================================================== *)
+Definition needed_keys (e : event) : list tkey :=
+  let n := state_needed e in
+  (if n_create n then [(t_create, [])] else []) ++
+  (if n_join_rules n then [(t_join_rules, [])] else []) ++
+  (if n_power n then [(t_power, [])] else []) ++
+  map (fun u => (t_member, u)) (n_member n) ++ map (fun t => (t_3pid, t)) (n_3pid n).
+
+Definition last_opt {A} (l : list A) : option A := fold_left (fun _ x => Some x) l None.
+
+Definition sits_under (k : tkey) (a : event) : bool :=
+  match event_tkey a with Some k' => tkey_eqb k' k | None => false end.
+
+(* the event's own auth events of key k that are supplied and not rejected; the last one counts *)
+Definition own_auth_entry (rejected : bytes -> bool) (authmap : list event) (e : event) (k : tkey) : option event :=
+  last_opt (filter (sits_under k) (lookup_ids authmap (filter (fun a => negb (rejected a)) (e_auth e)))).
+
+Definition spec_auth_entry (rejected : bytes -> bool) (authmap : list event)
+           (st : tkey -> option event) (e : event) (k : tkey) : option event :=
+  match st k with
+  | Some r => Some r
+  | None => own_auth_entry rejected authmap e k
+  end.
+
+Definition spec_auth_events_v2 (rejected : bytes -> bool) (authmap : list event)
+           (st : tkey -> option event) (e : event) : list event :=
+  flat_map (fun k => match spec_auth_entry rejected authmap st e k with Some a => [a] | None => [] end)
+           (needed_keys e).
